@@ -164,18 +164,20 @@ fn extra(cfg: &RunCfg, w: &mut Worker) {
             continue;
         }
         let s: &str = c.encode_utf8(&mut buf);
-        let got = dw(s);
         let want = ref_char_width(c);
+        // the library is only ever called under catch_unwind: a panic is routed through the normal path too
+        let got = std::panic::catch_unwind(|| dw(s)).ok();
         n += 1;
         *classes.entry(want).or_insert(0u64) += 1;
-        if got != want || got > s.len() {
+        if got != Some(want) || got.map_or(true, |g| g > s.len()) {
             // route through the normal path so that it is recorded with a replayable case
             w.run_case(&Case::new("sum").text(s.to_string()));
         }
         // the char embedded between two others (additivity per scalar)
         if cp % 64 == 0 {
             let t = format!("a{}你", c);
-            if dw(&t) != 1 + want + ref_char_width('你') {
+            let got = std::panic::catch_unwind(|| dw(&t)).ok();
+            if got != Some(1 + want + ref_char_width('你')) {
                 w.run_case(&Case::new("sum").text(t));
             }
         }
